@@ -93,7 +93,7 @@ def large_programs():
     """inputs that are big in one dimension (operator chains, nesting, pipeline length, tuple width): whatever guards or caches a
     pass keeps for them must not outlive the call"""
     out = []
-    for n in (60, 130, 200):
+    for n in (60, 200):
         out.append("from t | filter (" + " || ".join("a == %d" % i for i in range(n)) + ")")
         out.append("from t | derive {s = " + " + ".join("c%d" % i for i in range(n)) + "}")
     out.append("from t | derive {x = " + "(" * 40 + "a" + " + 1)" * 40 + "}")
@@ -458,8 +458,8 @@ def run():
     failing = [r for r in reqs if r["src"] in ERRORS or r["src"] in PANICKERS or r["src"] in large
                or any(w in r["src"] for w in ("(==1)", "(==t.x)", "foo:", "nope", "zz.a"))]
     valid = [r for r in reqs if r["src"] in COVER or r["src"] in list(POOL)[:40]]
-    nsoak = ck.n(60, 150)
-    for e_ in ck.rng.sample(failing, min(len(failing), ck.n(28, 90))):
+    nsoak = ck.n(50, 150)
+    for e_ in ck.rng.sample(failing, min(len(failing), ck.n(20, 90))):
         steps = [e_] * nsoak + [ck.rng.choice(valid) for _ in range(3)] + [e_] + [{"src": large[0], "format": False, "sig": False}, ck.rng.choice(valid)]
         hbatches.append([{"steps": steps}])
     ck.coverage["error_soak_histories"] = {"failing_or_large_requests": len(failing), "repetitions": nsoak}
